@@ -1,6 +1,6 @@
 (* C15 — tables of contents mirror the document's headings. *)
-From Coq Require Import ZArith List Bool Lia.
-From Verif Require Import PyStr Toc TocGen TocProofs.
+From Coq Require Import ZArith List Bool Lia FinFun.
+From Verif Require Import PyStr Toc TocGen TocProofs DecimalProofs.
 Import ListNotations.
 Local Open Scope nat_scope.
 
@@ -56,6 +56,30 @@ Proof. reflexivity. Qed.
 Theorem C15_ids_unique_in_document_order : forall range tokens,
   map snd (hook_items range tokens) = seq 0 (length (heading_positions range tokens)).
 Proof. exact hook_ids_in_order. Qed.
+
+(* ... and the id STRINGS ("toc_1", "toc_2", ...) are pairwise different too: str(int) can be read back
+   (DecimalProofs.str_of_Z_value, which also shows the fuel of the decimal rendering is never exhausted) *)
+Theorem C15_id_strings_injective : forall prefix i j, toc_id prefix i = toc_id prefix j -> i = j.
+Proof.
+  intros prefix i j H. unfold toc_id in H. apply app_inv_head in H. apply str_of_nat_inj in H. lia.
+Qed.
+Print Assumptions C15_id_strings_injective.
+
+Theorem C15_id_strings_unique : forall prefix range tokens,
+  NoDup (map (fun it => toc_id prefix (snd it)) (hook_items range tokens)).
+Proof.
+  intros prefix range tokens. rewrite <- (map_map snd (toc_id prefix)), C15_ids_unique_in_document_order.
+  apply Injective_map_NoDup; [intros i j; apply C15_id_strings_injective | apply seq_NoDup].
+Qed.
+Print Assumptions C15_id_strings_unique.
+
+(* an id is the prefix followed by a non-empty run of decimal digits, nothing else *)
+Theorem C15_id_shape : forall prefix i, exists d : str, toc_id prefix i = (prefix ++ d)%list /\ d <> (@nil Z) /\
+  forallb is_ascii_digit d = true.
+Proof.
+  intros prefix i. exists (str_of_nat (S i)). split; [reflexivity|]. split; [apply str_of_nat_nonempty | apply str_of_nat_digits].
+Qed.
+Print Assumptions C15_id_shape.
 
 Theorem C15_items_are_the_eligible_headings : forall range tokens,
   map (fun it => (fst (fst it), Some (snd (fst it)))) (hook_items range tokens) = heading_positions range tokens.
